@@ -83,10 +83,12 @@ TVacuum == Is("vacuum") /\ Step /\ (Ok(Ev.out) = TRUE)
            /\ tabs' = Vacuumed /\ snap' = <<>> /\ sess' = <<>> /\ UNCHANGED committed
 TReopen == Is("reopen") /\ Step /\ (Ok(Ev.out) = TRUE)
            /\ snap' = <<>> /\ sess' = <<>> /\ UNCHANGED <<tabs, committed>>
+\* C13 "storage stays bounded": file size (KiB) after each update/vacuum cycle stops growing from the third cycle on
+TSizes == Is("sizes") /\ Step /\ (\A i \in 3..Len(Ev.bytes) : Ev.bytes[i] <= Ev.bytes[i - 1]) /\ UNCHANGED dbvars
 TNoop   == (Is("flush") \/ Is("analyze")) /\ Step /\ (Ok(Ev.out) = TRUE) /\ UNCHANGED dbvars
 
 TNext == TReset \/ TBegin \/ TSelect \/ TDml \/ TBatch \/ TCreate \/ TDrop \/ TIndex \/ TOpaque
-         \/ TCommit \/ TRollback \/ TVacuum \/ TReopen \/ TNoop
+         \/ TCommit \/ TRollback \/ TVacuum \/ TReopen \/ TNoop \/ TSizes
 TSpec == TInit /\ [][TNext]_tvars
 
 (* C07 on the committed state, evaluated after every step *)
